@@ -72,11 +72,14 @@ SCENARIOS = {
     "harv-jl-none": ("harvester", {"num_batches": 2}, "joblib", None),
     "samp-pkl": ("sampler", {"batchsize": 2}, "pickle", "rows"),
     "samp-csv": ("sampler", {"batchsize": 1}, "csv", "rows"),
+    # a sampler whose table does not exist yet (used by C12)
+    "samp-pkl-none": ("sampler", {"batchsize": 2}, "pickle", None),
     # results that are bools, the very last one False (used by C12)
     "raw-bool": ("raw", {"batchsize": 2}, None, None),
 }
 
-C10_SCENARIOS = [n_ for n_ in SCENARIOS if n_ != "raw-bool"]
+C10_SCENARIOS = [n_ for n_ in SCENARIOS
+                 if n_ not in ("raw-bool", "samp-pkl-none")]
 WORKLOADS = ["sow", "resow", "grow1", "growmulti", "growmissing", "reap"]
 
 
